@@ -65,6 +65,9 @@ def _census(ctx, comp, rnd):
                 elif e["ev"] == "drop":
                     alive[e["a"]["branch"]] = False
                     have.add("drop")
+                    lead = (pa - pb) if e["a"]["branch"] == "A" else (pb - pa)
+                    if lead > 0:
+                        have.add("leader dropped while the other lags (%s)" % ("rc" if ex[0]["cfg"]["variant"] == "rc" else "ref"))
                 elif e["ev"] == "resplit":
                     alive = {"A": True, "B": True}
                     have.add("resplit to " + e["a"]["to"])
@@ -80,7 +83,8 @@ def _census(ctx, comp, rnd):
                 have.add("lag beyond 4096")
         elif comp == "buffered":
             have |= {k for k in ("clone", "nf_fold", "nf_for_each", "nf_count", "nf_last", "next_frames") if k in evs}
-    want = {"fork": {"overrun with both branches alive", "drop", "resplit to ref", "resplit to rc", "resplit to clone", "finite source"},
+    want = {"fork": {"overrun with both branches alive", "drop", "resplit to ref", "resplit to rc", "resplit to clone", "finite source",
+                     "leader dropped while the other lags (rc)", "leader dropped while the other lags (ref)"},
             "bus": {"drop_bus", "send", "drop", "lag beyond 4096"},
             "buffered": {"clone", "nf_fold", "nf_for_each", "nf_count", "nf_last", "next_frames"}}[comp]
     if want - have:
